@@ -174,6 +174,10 @@ func GuardScope(p *core.Prog, r *core.Report) {
 	// the exemption predicates themselves: true for every path of at least two segments that ends in the exempted
 	// name (a one-segment root path never is an exemption; a top-level default of a body parameter has exactly two)
 	lenAtom := regexp.MustCompile(`^(\d+)<ret0:len\(`)
+	segAtom := regexp.MustCompile(`^"([^"]+)"==recv\.\w+\[\(ret0:len\(recv\.\w+\)-(\d)\)\]$`)
+	// the keyword each predicate exempts (Swagger: properties, default, example / examples); the first is also the
+	// name the segment before must not bear
+	exemptNames := map[string][]string{"isProperties": {"properties"}, "isDefault": {"default"}, "isExample": {"example", "examples"}}
 	for _, name := range []string{"isProperties", "isDefault", "isExample"} {
 		f := p.Func("(*objectValidator)." + name)
 		if f == nil {
@@ -189,10 +193,91 @@ func GuardScope(p *core.Prog, r *core.Report) {
 		rt := &router{p: p, recvType: recvT, primitive: map[*ssa.Function]string{}, relevant: func(*ssa.Function) bool { return false }}
 		bounds := map[string]bool{}
 		trueRuns, total := 0, 0
+		var wrong []string
 		rt.enumerate(f, []string{"recv"}, func(run *routeRun) {
 			total++
 			if run.ret == "true" {
 				trueRuns++
+			}
+			// exact verdict: true iff len > 1, the last segment is (one of) the exempted name(s) and the segment
+			// before it is not that name (then the word is a member name, not the keyword) — three-valued over the
+			// comparisons this run made; a verdict that does not follow from them is wrong
+			const (
+				f3 = iota
+				t3
+				u3
+			)
+			and3 := func(a, b int) int {
+				if a == f3 || b == f3 {
+					return f3
+				}
+				if a == u3 || b == u3 {
+					return u3
+				}
+				return t3
+			}
+			lenOK, last, prev := u3, f3, u3
+			lastSeen := 0
+			for a, v := range run.atoms {
+				if lenAtom.MatchString(a) {
+					if m := lenAtom.FindStringSubmatch(a); m[1] == "1" {
+						lenOK = f3
+						if v {
+							lenOK = t3
+						}
+					}
+					continue
+				}
+				m := segAtom.FindStringSubmatch(a)
+				if m == nil {
+					wrong = append(wrong, "a condition that is not a comparison of one of the last two segments with a name: "+a)
+					continue
+				}
+				isName := false
+				for _, nm := range exemptNames[name] {
+					if nm == m[1] {
+						isName = true
+					}
+				}
+				switch m[2] {
+				case "1":
+					if !isName {
+						wrong = append(wrong, "the last segment is compared with "+m[1])
+						continue
+					}
+					lastSeen++
+					if v {
+						last = t3
+					}
+				case "2":
+					if m[1] != exemptNames[name][0] {
+						wrong = append(wrong, "the segment before the last is compared with "+m[1])
+						continue
+					}
+					prev = f3
+					if v {
+						prev = t3
+					}
+				}
+			}
+			if last == f3 && lastSeen < len(exemptNames[name]) {
+				last = u3 // not every name was tried
+			}
+			notPrev := u3
+			if prev == t3 {
+				notPrev = f3
+			} else if prev == f3 {
+				notPrev = t3
+			}
+			want := and3(lenOK, and3(last, notPrev))
+			got := f3
+			if run.ret == "true" {
+				got = t3
+			}
+			if want == u3 {
+				wrong = append(wrong, fmt.Sprintf("answers %s without having looked at what decides (%v)", run.ret, run.atoms))
+			} else if want != got {
+				wrong = append(wrong, fmt.Sprintf("answers %s for %v", run.ret, run.atoms))
 			}
 			for a := range run.atoms {
 				if m := lenAtom.FindStringSubmatch(a); m != nil {
@@ -205,6 +290,12 @@ func GuardScope(p *core.Prog, r *core.Report) {
 			bs = append(bs, b)
 		}
 		sort.Strings(bs)
+		if len(wrong) > 0 {
+			sort.Strings(wrong)
+			r.Bad(rule, "exemption:"+name+":exact", p.Pos(f.Pos()), "the exemption predicate must hold exactly for paths of two or more segments whose last segment is "+strings.Join(exemptNames[name], " or ")+" and whose segment before that is not "+exemptNames[name][0]+" (then it is a member of that name): "+strings.Join(uniq(wrong), "; ")+" — a rule of the Swagger schema pass is switched off for ordinary paths, or applied inside default / example values")
+		} else {
+			r.OK(rule, "exemption:"+name+":exact", p.Pos(f.Pos()), fmt.Sprintf("true exactly for len > 1, last segment in {%s}, previous segment not %s (%d runs)", strings.Join(exemptNames[name], ", "), exemptNames[name][0], total))
+		}
 		if len(bs) == 1 && bs[0] == "1" && trueRuns > 0 {
 			r.OK(rule, "exemption:"+name+":from-two-segments", p.Pos(f.Pos()), fmt.Sprintf("the only length condition is len(path) > 1 (%d paths enumerated, %d exempting)", total, trueRuns))
 		} else {
